@@ -23,6 +23,10 @@ EXTRA_KINDS = {
     "xm": (Meta[str], "m"),
     "xg": (Annotated[Path, pathgenerator("extra.txt")], None),
     "xf": (Param[float], 0.25),
+    # defaults written with a literal of another (coercible) type
+    "xfi": (Param[float], 1),
+    "xif": (Param[int], 2.0),
+    "xb0": (Param[bool], 0),
 }
 
 
